@@ -26,6 +26,17 @@ class PByte(KBits):
         return 'B%d%s' % (self.idx, KBits.__repr__(self)[5:] if (self.mask or self.cleared) else '')
 
 
+class OrBytes:
+    """The bitwise OR of several input bytes (a branch-free all-zero test in the making)."""
+    __slots__ = ('parts',)
+
+    def __init__(self, parts):
+        self.parts = list(parts)
+
+    def __repr__(self):
+        return 'Or(%s)' % ', '.join(repr(p) for p in self.parts)
+
+
 class Limb:
     """A u64 limb of a field-element representation: 8 input bytes, most significant first."""
     __slots__ = ('bytes',)
@@ -71,6 +82,27 @@ class DecoderRun2:
                     r = PByte(x.idx, r.mask, r.val, r.cleared)
                 out.append(r)
             return Limb(out)
+        # OR-fold of input bytes compared with zero: the all-zero test of exactly those bytes
+        if op == 'BitOr' and (isinstance(a, (PByte, OrBytes)) and isinstance(b, (PByte, OrBytes))):
+            return OrBytes((a.parts if isinstance(a, OrBytes) else [a]) + (b.parts if isinstance(b, OrBytes) else [b]))
+        if op == 'BitOr' and isinstance(a, OrBytes) and isinstance(b, Int) and b.v == 0:
+            return a
+        if op == 'BitOr' and isinstance(b, OrBytes) and isinstance(a, Int) and a.v == 0:
+            return b
+        if op in ('Eq', 'Ne') and ((isinstance(a, OrBytes) and isinstance(b, Int) and b.v == 0) or (isinstance(b, OrBytes) and isinstance(a, Int) and a.v == 0)):
+            ob = a if isinstance(a, OrBytes) else b
+            ev = getattr(getattr(self, 'I', None), '_cur_path', None)
+            ev = ev.events if ev is not None else self.cur_events
+            rs = [exp.kbits_binop('Eq', x, Int(0, 8)) for x in ob.parts]
+            nz = [x for x, r in zip(ob.parts, rs) if isinstance(r, Int) and not r.v]
+            if nz:
+                ev.append(('zero-test', nz[0].idx, False))
+                return Int(0 if op == 'Eq' else 1, 1)
+            for x, r in zip(ob.parts, rs):
+                ev.append(('zero-test', x.idx, True if isinstance(r, Int) else None))
+            if all(isinstance(r, Int) for r in rs):
+                return Int(1 if op == 'Eq' else 0, 1)
+            return ('bool', PAYLOAD_ZERO) if op == 'Eq' else ('bool', ('not', PAYLOAD_ZERO))
         pa, pb = isinstance(a, PByte), isinstance(b, PByte)
         if pa and pb and op in ('Eq', 'Ne') and a.idx == b.idx:
             # the same input byte seen twice: equal when neither copy had an unknown bit forced and the known bits agree
